@@ -280,6 +280,8 @@ type summary struct {
 	Extra        map[string]int `json:"extra"`
 	WallMS       int64          `json:"wall_ms"`
 	MaxStepsRun  int            `json:"max_steps_in_a_run"`
+	SimNanos     int64          `json:"sim_nanos"`
+	TimersFired  int64          `json:"timers_fired"`
 }
 
 type record struct {
@@ -388,6 +390,8 @@ func (t *totals) add(recs []record) {
 			t.sum.Steps += s.Steps
 			t.sum.Switches += s.Switches
 			t.sum.Goroutines += s.Goroutines
+			t.sum.SimNanos += s.SimNanos
+			t.sum.TimersFired += s.TimersFired
 			if s.MaxStepsRun > t.sum.MaxStepsRun {
 				t.sum.MaxStepsRun = s.MaxStepsRun
 			}
@@ -798,7 +802,11 @@ func writeEvidence(sp *spec, tier string, seed uint64, t *totals, sc *scratch, s
 	cov["scheduler_steps_total"] = t.sum.Steps
 	cov["context_switches_total"] = t.sum.Switches
 	cov["simulated_goroutines_total"] = t.sum.Goroutines
-	cov["simulated_time"] = fmt.Sprintf("%d scheduler steps (logical clock; the exercised code has no timers)", t.sum.Steps)
+	if t.sum.TimersFired > 0 {
+		cov["simulated_time"] = fmt.Sprintf("%d scheduler steps; %d simulated timers fired, simulated clocks advanced by %.1f s in total (discrete-event time: the clock jumps when a timer fires)", t.sum.Steps, t.sum.TimersFired, float64(t.sum.SimNanos)/1e9)
+	} else {
+		cov["simulated_time"] = fmt.Sprintf("%d scheduler steps (logical clock; the exercised code has no timers)", t.sum.Steps)
+	}
 	cov["max_steps_in_a_run"] = t.sum.MaxStepsRun
 	cov["inconclusive_runs"] = t.sum.Inconclusive
 	cov["abstract_states_reached"] = len(t.states)
